@@ -4,7 +4,6 @@ across all sets without docs, across all sets with docs, and differ between the 
 import os, sys, subprocess, shutil, json, time, itertools
 from concurrent.futures import ThreadPoolExecutor
 
-FP_DIR = '/verif/harness/progs/fp'
 FEATS = ['f_std', 'f_serde', 'f_decode', 'f_bitvec', 'f_schema', 'f_docs']
 QUICK = [[], ['f_std'], ['f_decode'], ['f_std', 'f_serde', 'f_decode'], ['f_std', 'f_serde', 'f_bitvec', 'f_schema'], ['f_serde', 'f_bitvec'],
          ['f_docs'], ['f_std', 'f_docs'], ['f_std', 'f_serde', 'f_decode', 'f_bitvec', 'f_schema', 'f_docs']]
@@ -15,6 +14,7 @@ def name(fs):
 
 
 def main(ck, pid, cfg, tier, seed, replay):
+    FP_DIR = os.path.join(ck.VERIF, 'harness', 'progs', 'fp')
     t0 = time.time()
     failures, stats, seen, samples = [], dict(evaluations=0, by_verdict={}, unmodelled=0), set(), []
     build_fail = None
